@@ -73,6 +73,13 @@ def build(modules):
     return rc == 0, log, failed
 
 
+def recheck(modules, timeout=1800):
+    """thorough tier: replay the compiled modules through `leanchecker`, the toolchain's independent re-checker of
+    .olean files (kernel re-check of every declaration, without the elaborator). Returns (ok, log)."""
+    rc, log = lake(['env', 'leanchecker'] + modules, timeout=timeout)
+    return rc == 0, log
+
+
 def theorem_at(file_rel, line_no):
     """name of the theorem enclosing a source line (for naming a broken obligation)"""
     try:
